@@ -4,6 +4,7 @@ import (
 	"errors"
 	"fmt"
 	"os"
+	"strings"
 	"path/filepath"
 	"regexp"
 	"sync/atomic"
@@ -21,11 +22,11 @@ func init() {
 		Level: "fault_enumeration",
 		Rule: "E-twin consumer + E-fault: (1) benign PRNG programs (the C01 family with file watches and consumer pauses so the reader lags) must leave Errors empty; " +
 			"(2) directed two-step histories whose second step invalidates a kernel watch before the first notification is processed (rename-then-delete, rename-then-rmdir, delete-then-Remove, rename-then-Remove, recreate-then-re-Add, rename-rename-delete) " +
-			"with the reader held back by a paused consumer for 0..64 earlier events, on files and directories; (3) real queue overflows of 1.1x and 2x max_queued_events (8x in thorough), twice in a row, with changes made while the overflow marker is still unread (after part of the queue was consumed), and strace-injected EIO on the inotify read (must be reported, and survived): " +
+			"with the reader held back by a paused consumer for 0..64 earlier events, on files and directories; (3) real queue overflows of 1.1x and 2x max_queued_events (8x in thorough), twice in a row, with changes made while the overflow marker is still unread (after part of the queue was consumed), strace-injected EIO on the inotify read (must be reported, and survived), and the other read paths of the reader: injected EINTR (not a failure: nothing on Errors, nothing lost), injected return values 0 and 8 (end of file / short read: reported, survived): " +
 			"an error satisfying errors.Is(ErrEventOverflow) must arrive, afterwards a sentinel, ordinary events, Add and Remove must work. distinct_nontrivial = distinct programs/histories that delivered >=1 event",
 		Assumptions: []string{"no fault is injected in parts (1) and (2): any value on Errors there is spurious", "overflow is provoked only in part (3)"},
 		Batches:     func(t string) int { return map[string]int{"quick": 16, "thorough": 64}[t] },
-		MustObserve: []string{"events_received", "directed_histories", "overflow_cases"},
+		MustObserve: []string{"events_received", "directed_histories", "overflow_cases", "other_read_fault_sessions"},
 		Run:         runC10,
 	})
 }
@@ -182,6 +183,9 @@ func runC10(c *core.Ctx) {
 	if c.Batch < c.Pick(2, 6) {
 		c10Overflow(c, c.Batch)
 	}
+	if c.Only < 0 {
+		c10OtherReadFaults(c)
+	}
 	if c.Batch >= 8 && c.Batch-8 < len(faultWhens) && c.Only < 0 {
 		when := faultWhens[c.Batch-8]
 		if _, ok := c.CaseRng(9500, "injected read error when="+when); ok {
@@ -204,6 +208,50 @@ func runC10(c *core.Ctx) {
 					c.Sample(map[string]interface{}{"injected_read_errors": inj, "session": r})
 				}
 			}
+		}
+	}
+}
+
+// c10OtherReadFaults: the read paths of readEvents that no test reaches. The injected call is not executed,
+// so nothing is lost: (EINTR) an interrupted read is not a failure - nothing on Errors, everything delivered;
+// (return value 0 / 8) end-of-file and a short read are failures that must be reported, and the Watcher must
+// go on afterwards.
+func c10OtherReadFaults(c *core.Ctx) {
+	specs := []struct{ spec, when, wantErr string }{
+		{"error=EINTR", "1..3", ""}, {"error=EINTR", "2+2", ""},
+		{"retval=0", "2", "EOF"}, {"retval=8", "2", "short read"}, {"retval=8", "1..2", "short read"},
+	}
+	for i, sp := range specs {
+		if c.Batch != i+2 {
+			continue
+		}
+		if _, ok := c.CaseRng(9600+i, "injected read "+sp.spec+" when="+sp.when); !ok {
+			continue
+		}
+		r, inj, ok := runFaultSpec(c, sp.spec, sp.when)
+		if !ok {
+			continue
+		}
+		c.Count("other_read_fault_sessions", 1)
+		c.Count("reads_tampered_with", int64(inj))
+		c.Eval(1)
+		c.Distinct("readfault", sp.spec, sp.when)
+		if sp.wantErr == "" && len(r.Errors) > 0 {
+			c.Violate(errSig(r.Errors[0]), fmt.Sprintf("%d read(2) calls on the inotify descriptor were interrupted (EINTR injected, when=%s) - not a failure - and %v arrived on Errors", inj, sp.when, r.Errors), r)
+		}
+		if sp.wantErr != "" && inj > 0 {
+			found := false
+			for _, e := range r.Errors {
+				if strings.Contains(e, sp.wantErr) {
+					found = true
+				}
+			}
+			if !found {
+				c.Violate("genuine-failure-not-reported", fmt.Sprintf("%d read(2) calls returned %s (injected, when=%s); Errors carried %v, nothing mentioning %q", inj, sp.spec, sp.when, r.Errors, sp.wantErr), r)
+			}
+		}
+		if r.Events < r.Expected || !r.LateEventSeen || r.AddAfter != "" || r.RemoveAfter != "" {
+			c.Violate("watcher-did-not-survive-read-error", fmt.Sprintf("after %d tampered reads (%s): %d of %d events delivered, event of a directory added afterwards seen=%v, Add=%q Remove=%q", inj, sp.spec, r.Events, r.Expected, r.LateEventSeen, r.AddAfter, r.RemoveAfter), r)
 		}
 	}
 }
